@@ -72,8 +72,8 @@ def predefined_ctx():
     return Ctx([["load_predefined"]], units, classes, "predefined")
 
 
-def user_ctx(rng, length=14):
-    g = HistGen(rng, with_invalid=False, split_items=.4)
+def user_ctx(rng, length=14, **kw):
+    g = HistGen(rng, with_invalid=False, split_items=.4, **kw)
     steps = g.history(length)
     w = g.w
     # targeted: two units of ONE derived type, each defined by a term with a
